@@ -204,7 +204,7 @@ def strategy(ctx, shard=0):
 
 
 def budget(ctx):
-    return dict(max_examples=ctx.pick(640, 8000), shards=16)
+    return dict(max_examples=ctx.pick(640, 24000), shards=16)
 
 
 def warmup():
